@@ -28,8 +28,9 @@
  *
  * Known finding guards (see checks/C19.py):
  *   KF_D5_PRETYPE   pre_type (nosv, nanos6) trusts the jumbo shape: excluded signature =
- *                   category 'Y', value 'c', is_jumbo seen by the handler, and NOT (real jumbo
- *                   with >= 5 data bytes and a nil inside the label)
+ *                   category 'Y', value 'c', jumbo event, and NOT (>= 5 data bytes and a nil
+ *                   inside the label).  (The other half of D5, the stale is_jumbo of emu_ev(),
+ *                   was fixed in the tree: a non-jumbo Yc must be rejected.)
  *   KF_OHC_DEBUG    pre_thread 'C' formats payload->u32[0..2] for dbg() without a size check:
  *                   excluded signature = debug mode, OHC with fewer than 12 payload bytes
  */
@@ -102,7 +103,7 @@ harness(void)
 	uint8_t *base = malloc(EVMAX + SLACK);
 	V_ASSUME(base != NULL);
 	uint8_t *oevb = base + (EVMAX - evsize);
-	for (int64_t i = 0; i < evsize; i++)
+	for (int64_t i = 0; i < EVMAX && i < evsize; i++)
 		oevb[i] = IN.raw[i];
 	for (int i = 0; i < SLACK; i++)
 		base[EVMAX + i] = IN.slack[i];     /* arbitrary bytes of the next event / beyond the file */
@@ -116,11 +117,11 @@ harness(void)
 	 * later counterexample satisfies them) */
 #ifdef KF_D5_PRETYPE
 	{
-		int wellformed = real_jumbo && psize >= 4 + 5;
+		int wellformed = psize >= 4 + 5;
 		int nil = 0;
-		for (int64_t k = 8; k < psize; k++)
+		for (int64_t k = 8; k < 16 && k < psize; k++)
 			if (IN.raw[12 + k] == 0) nil = 1;
-		V_ASSUME(!(c == 'Y' && v == 'c' && seen_jumbo && !(wellformed && nil)));
+		V_ASSUME(!(c == 'Y' && v == 'c' && real_jumbo && !(wellformed && nil)));
 	}
 #endif
 #ifdef KF_OHC_DEBUG
@@ -205,7 +206,7 @@ harness(void)
 			V_ASSERT(g_type_create_id == le32(pl + 4), "C19: the type id is the first word of the jumbo data");
 			V_ASSERT((const uint8_t *) g_type_label == pl + 8, "C19: the label follows the type id");
 			int nil = 0;
-			for (int64_t k = 8; k < psize; k++)
+			for (int64_t k = 8; k < 16 && k < psize; k++)
 				if (pl[k] == 0) nil = 1;
 			V_ASSERT(nil, "C19: the label handed to task_type_create is nil-terminated inside the jumbo data");
 		}
